@@ -78,7 +78,7 @@ fn judge(acc: &mut Acc, base: &Base, mutated: &str, lib: bool, form: &str, what:
         if !ff {
             // failure attributable to the known memo defect (P10)?
             acc.transitions += 1;
-            return if api::unbounded_memo_gives(mutated, lib, &base.skel) { Some(api::SIG_MEMO.to_string()) } else { None };
+            return if api::unbounded_memo_gives(mutated, lib, &base.skel) { Some(api::memo_sig_for(mutated)) } else { None };
         }
         acc.transitions += 1;
         let blanked = mutated.replace('\u{c}', " ");
